@@ -1,9 +1,17 @@
 package p_blockb
 
 import (
+	"compress/gzip"
 	"context"
+	"crypto/sha256"
+	"encoding/hex"
 	"errors"
 	"fmt"
+	"io"
+	"os"
+	"path/filepath"
+	"sort"
+	"strings"
 	"sync"
 	"sync/atomic"
 	"testing"
@@ -12,6 +20,7 @@ import (
 	"github.com/spikeekips/mitum/isaac"
 	isaacblock "github.com/spikeekips/mitum/isaac/block"
 	leveldbstorage "github.com/spikeekips/mitum/storage/leveldb"
+	"github.com/spikeekips/mitum/util"
 	"verif/internal/chain"
 	"verif/internal/ev"
 	"verif/internal/gen"
@@ -30,6 +39,9 @@ type c15Src struct {
 	Blocks []bbBlock // by height, read back from the source's local fs
 	// model: for every height h, the value every key must have when the chain is cut at h
 	KeysAt []map[string]base.State
+	// by height: item types of the block map (in the map's order) and the checksum the signed block map records for each
+	Items [][]base.BlockItemType
+	Sums  []map[base.BlockItemType]string
 }
 
 var (
@@ -95,6 +107,31 @@ func c15Build() (*c15Src, error) {
 
 		s.Blocks = append(s.Blocks, b)
 
+		// the content checksums of the block map are the reference for "the files of this block"; c15ItemSum must
+		// reproduce them from the source's own files, otherwise the file comparison of the oracle would be meaningless
+		var types []base.BlockItemType
+
+		sums := map[base.BlockItemType]string{}
+
+		b.Map.Items(func(item base.BlockMapItem) bool {
+			types = append(types, item.Type())
+			sums[item.Type()] = item.Checksum()
+
+			return true
+		})
+
+		for _, it := range types {
+			switch sum, found, err := c15ItemSum(w.Readers, h, it); {
+			case err != nil, !found:
+				return nil, fmt.Errorf("source block %d item %s: found=%v %w", h, it, found, err)
+			case sum != sums[it]:
+				return nil, fmt.Errorf("source block %d item %s: checksum of the file content %s, block map says %s", h, it, sum, sums[it])
+			}
+		}
+
+		s.Items = append(s.Items, types)
+		s.Sums = append(s.Sums, sums)
+
 		next := make(map[string]base.State, len(cur)+len(b.States))
 		for k, v := range cur {
 			next[k] = v
@@ -132,6 +169,9 @@ type c15Case struct {
 	Prefix             int  // the destination holds 0..Prefix-1 before ImportBlocks (== From unless reimport/gap)
 	Fault              string
 	FaultAt            int // height of the block that cannot be stored/merged (reimport/gap: From)
+	// what is already under the destination's local-fs root (besides the files of 0..Prefix-1) before ImportBlocks
+	Left     []c15Left
+	LeftTemp bool
 }
 
 func (c c15Case) To() int { return c.From + c.Count - 1 }
@@ -166,7 +206,16 @@ func (c c15Case) String() string {
 		s += fmt.Sprintf(" fault=%s destination holds 0..%d (block %d in a batch of %d)", c.Fault, c.Prefix-1, c.FaultAt, c.FaultBatchSize())
 	}
 
+	if len(c.Left) > 0 || c.LeftTemp {
+		s += fmt.Sprintf(" left-overs under the local-fs root before the import (height:kind): %s", c15LeftString(c.Left, c.LeftTemp))
+	}
+
 	return s
+}
+
+// BatchSizeOf is the number of importers in the batch that holds the block of height h.
+func (c c15Case) BatchSizeOf(h int) int {
+	return c15Case{From: c.From, Count: c.Count, Limit: c.Limit, FaultAt: h}.FaultBatchSize()
 }
 
 type c15Outcome struct {
@@ -183,6 +232,239 @@ type c15Outcome struct {
 	Fired    int64 // writes refused by the fault controller
 	// after an error return: blocks of the range visible in the Center whose block files are gone (informational)
 	VisibleWithoutFiles int
+}
+
+// ---- left-overs: what an earlier, interrupted import (or a roll back of the database without its files) left under the
+// local-fs root of the destination before ImportBlocks runs. LocalFSImporter moves the files of a block into
+// <root>/<height directory> and writes <root>/<parent>/<height>.json in Save, before the block write database is merged;
+// a process that dies in between leaves exactly that behind, and the next import of the range finds it.
+
+const (
+	// the block's own height directory and <height>.json, as a completed LocalFSImporter.Save leaves them
+	c15LeftReal = "own-files"
+	// the files of another block under this height (the database was rolled back, the files of the abandoned block stayed)
+	c15LeftForeign = "other-block-files"
+	// height directory with the first half of one item file and a stray file, no <height>.json
+	c15LeftPartial = "partial-files"
+	// height directory with a stray file and a <height>.json that does not decode
+	c15LeftJunkJSON = "junk-and-junk-json"
+	// empty height directory
+	c15LeftEmpty = "empty-directory"
+	// only <height>.json (of the block itself), no height directory
+	c15LeftJSONOnly = "json-only"
+)
+
+var c15LeftKinds = []string{c15LeftReal, c15LeftPartial, c15LeftForeign, c15LeftEmpty, c15LeftJunkJSON, c15LeftJSONOnly}
+
+type c15Left struct {
+	Height int
+	Kind   string
+}
+
+func c15LeftString(ls []c15Left, temp bool) string {
+	var sl []string
+	for _, l := range ls {
+		sl = append(sl, fmt.Sprintf("%d:%s", l.Height, l.Kind))
+	}
+
+	if temp {
+		sl = append(sl, "temp")
+	}
+
+	return strings.Join(sl, ",")
+}
+
+func c15CopyFile(src, dst string, half bool) error {
+	b, err := os.ReadFile(src)
+	if err != nil {
+		return err
+	}
+
+	if half {
+		b = b[:len(b)/2]
+	}
+
+	if err := os.MkdirAll(filepath.Dir(dst), 0o700); err != nil {
+		return err
+	}
+
+	return os.WriteFile(dst, b, 0o600)
+}
+
+func c15DirFiles(dir string) ([]string, error) {
+	es, err := os.ReadDir(dir)
+	if err != nil {
+		return nil, err
+	}
+
+	var names []string
+
+	for _, e := range es {
+		if !e.IsDir() {
+			names = append(names, e.Name())
+		}
+	}
+
+	sort.Strings(names)
+
+	if len(names) < 1 {
+		return nil, fmt.Errorf("no files in %s", dir)
+	}
+
+	return names, nil
+}
+
+func c15CopyHeightDir(srcroot string, srch int, dstroot string, dsth int) error {
+	sd := filepath.Join(srcroot, isaac.BlockHeightDirectory(base.Height(srch)))
+	dd := filepath.Join(dstroot, isaac.BlockHeightDirectory(base.Height(dsth)))
+
+	names, err := c15DirFiles(sd)
+	if err != nil {
+		return err
+	}
+
+	for _, n := range names {
+		if err := c15CopyFile(filepath.Join(sd, n), filepath.Join(dd, n), false); err != nil {
+			return err
+		}
+	}
+
+	return nil
+}
+
+// c15Plant writes the left-overs of the case under the destination root.
+func c15Plant(s *c15Src, d *bbDest, c c15Case) error {
+	srcroot := s.W.Root
+	junk := []byte("c15: left over by an interrupted import\n")
+
+	for _, l := range c.Left {
+		h := base.Height(l.Height)
+		dir := filepath.Join(d.Root, isaac.BlockHeightDirectory(h))
+		jsonf := isaac.BlockItemFilesPath(d.Root, h)
+
+		if _, err := os.Stat(dir); err == nil {
+			return fmt.Errorf("left-over %d: height directory already there", l.Height)
+		}
+
+		var err error
+
+		switch l.Kind {
+		case c15LeftReal:
+			if err = c15CopyHeightDir(srcroot, l.Height, d.Root, l.Height); err == nil {
+				err = c15CopyFile(isaac.BlockItemFilesPath(srcroot, h), jsonf, false)
+			}
+		case c15LeftForeign:
+			other := l.Height + 1
+			if other > c15Top {
+				other = l.Height - 1
+			}
+
+			if err = c15CopyHeightDir(srcroot, other, d.Root, l.Height); err == nil {
+				err = c15CopyFile(isaac.BlockItemFilesPath(srcroot, base.Height(other)), jsonf, false)
+			}
+		case c15LeftPartial:
+			sd := filepath.Join(srcroot, isaac.BlockHeightDirectory(h))
+
+			var names []string
+
+			if names, err = c15DirFiles(sd); err == nil {
+				n := names[l.Height%len(names)]
+				if err = c15CopyFile(filepath.Join(sd, n), filepath.Join(dir, n), true); err == nil {
+					err = os.WriteFile(filepath.Join(dir, "left-over"), junk, 0o600)
+				}
+			}
+		case c15LeftJunkJSON:
+			if err = os.MkdirAll(dir, 0o700); err == nil {
+				if err = os.WriteFile(filepath.Join(dir, "left-over"), junk, 0o600); err == nil {
+					err = os.WriteFile(jsonf, junk, 0o600)
+				}
+			}
+		case c15LeftEmpty:
+			err = os.MkdirAll(dir, 0o700)
+		case c15LeftJSONOnly:
+			err = c15CopyFile(isaac.BlockItemFilesPath(srcroot, h), jsonf, false)
+		default:
+			err = fmt.Errorf("unknown kind %q", l.Kind)
+		}
+
+		if err != nil {
+			return fmt.Errorf("left-over %d %s: %w", l.Height, l.Kind, err)
+		}
+	}
+
+	if c.LeftTemp { // the temp directory of an importer that never reached Save
+		td := filepath.Join(d.Root, isaacblock.BlockTempDirectoryPrefix, fmt.Sprintf("%d-c15leftover", c.From))
+		if err := os.MkdirAll(td, 0o700); err != nil {
+			return err
+		}
+
+		if err := os.WriteFile(filepath.Join(td, "left-over"), junk, 0o600); err != nil {
+			return err
+		}
+	}
+
+	return nil
+}
+
+// c15ItemSum is the hex SHA-256 of the (decompressed) content of the file of one block item under a local-fs root:
+// the checksum a block map records for the item.
+func c15ItemSum(readers *isaac.BlockItemReaders, h base.Height, it base.BlockItemType) (sum string, found bool, err error) {
+	found, err = readers.Reader(h, it, func(f io.Reader, compressFormat string) error {
+		switch compressFormat {
+		case "":
+		case "gz":
+			gr, err := gzip.NewReader(f)
+			if err != nil {
+				return err
+			}
+
+			defer gr.Close()
+
+			f = gr
+		default:
+			return fmt.Errorf("unknown compress format %q", compressFormat)
+		}
+
+		hh := sha256.New()
+		if _, err := io.Copy(hh, f); err != nil {
+			return err
+		}
+
+		sum = hex.EncodeToString(hh.Sum(nil))
+
+		return nil
+	})
+
+	return sum, found, err
+}
+
+// c15FilesOf compares the files of block h under the destination's local-fs root with the source: the block map file
+// decodes to the source's block map and the content of the file of every item of that map has the checksum the signed
+// map records. problem "" when they match; missing when a file is not there or cannot be read at all.
+func c15FilesOf(s *c15Src, fresh *isaac.BlockItemReaders, h int) (missing bool, problem string) {
+	switch m, found, err := isaac.BlockItemReadersDecode[base.BlockMap](fresh.Item, base.Height(h), base.BlockItemMap, nil); {
+	case err != nil:
+		return true, fmt.Sprintf("block map file unreadable: %s", bbErrStr(err))
+	case !found:
+		return true, "block map file not found"
+	default:
+		if err := base.IsEqualBlockMap(s.Blocks[h].Map, m); err != nil {
+			return false, fmt.Sprintf("block map file differs from the source: %v", err)
+		}
+	}
+
+	for _, it := range s.Items[h] {
+		switch sum, found, err := c15ItemSum(fresh, base.Height(h), it); {
+		case !found && (err == nil || errors.Is(err, util.ErrNotFound)):
+			return true, fmt.Sprintf("file of item %s not found", it)
+		case err != nil:
+			return true, fmt.Sprintf("file of item %s unreadable: %s", it, bbErrStr(err))
+		case sum != s.Sums[h][it]:
+			return false, fmt.Sprintf("content of the file of item %s has checksum %s, the block map says %s", it, sum, s.Sums[h][it])
+		}
+	}
+
+	return false, ""
 }
 
 // ---- fault injection + observation of the per-block merge step
@@ -327,6 +609,12 @@ func c15Run(s *c15Src, c c15Case) (*bbDest, c15Outcome, error) {
 		}
 	}
 
+	if err := c15Plant(s, d, c); err != nil {
+		d.Close()
+
+		return nil, c15Outcome{}, err
+	}
+
 	var out c15Outcome
 
 	p := &c15Probe{mergeOK: map[int]bool{}, mergeErr: map[int]string{}}
@@ -390,6 +678,17 @@ func c15Run(s *c15Src, c c15Case) (*bbDest, c15Outcome, error) {
 	return d, out, nil
 }
 
+// c15FilesSig: a block that is in the database while its files are not in the local fs has its own root cause (the
+// files were never moved in place, or were taken away afterwards); a block missing from both keeps the signature of the
+// missing block.
+func c15FilesSig(sig string, inDB bool) string {
+	if inDB {
+		return "missing-block-files"
+	}
+
+	return sig
+}
+
 // c15Check is the oracle: success => every block From..To is stored and merged.
 func c15Check(t ev.TB, r *ev.Rec, s *c15Src, c c15Case, d *bbDest, out c15Outcome) {
 	if out.Err != nil {
@@ -399,6 +698,15 @@ func c15Check(t ev.TB, r *ev.Rec, s *c15Src, c c15Case, d *bbDest, out c15Outcom
 	to := base.Height(c.To())
 	top := base.Height(c.Top()) // == to unless the destination already held later blocks (reimport)
 	desc := c.String()
+
+	encs, _ := gen.Encoders()
+
+	fresh := isaac.NewBlockItemReaders(d.Root, encs, nil)
+	defer fresh.Close()
+
+	if err := fresh.Add(isaacblock.LocalFSWriterHint, isaacblock.NewDefaultItemReaderFunc(3)); err != nil {
+		t.Fatalf("readers: %v", err)
+	}
 
 	// success => every block merged: a merge step (the func handed to the BlockImporter, Center.MergeBlockWriteDatabase as
 	// in launch) whose last run for a height of the range failed means that block is not merged. A merge step that never
@@ -442,27 +750,40 @@ func c15Check(t ev.TB, r *ev.Rec, s *c15Src, c c15Case, d *bbDest, out c15Outcom
 	for h := c.From; h <= c.To(); h++ {
 		b := s.Blocks[h]
 
+		inDB := false
+
 		switch m, found, err := d.DB.BlockMap(base.Height(h)); {
 		case err != nil:
 			t.Fatalf("BlockMap: %v", err)
 		case !found:
 			r.Violation(t, sig, "%s: success but block map of height %d is not in the database", desc, h)
 		default:
+			inDB = true
+
 			if err := base.IsEqualBlockMap(b.Map, m); err != nil {
 				r.Violation(t, "stored-block-differs", "%s: stored block map of height %d differs from the source: %v", desc, h, err)
 			}
 		}
 
-		// local fs of the destination
+		// local fs of the destination, through the readers ImportBlocks was given ...
 		switch m, found, err := isaac.BlockItemReadersDecode[base.BlockMap](d.Readers.Item, base.Height(h), base.BlockItemMap, nil); {
 		case err != nil:
-			r.Violation(t, sig, "%s: success but the block files of height %d are unreadable: %v", desc, h, err)
+			r.Violation(t, c15FilesSig(sig, inDB), "%s: success but the block files of height %d are unreadable: %v", desc, h, err)
 		case !found:
-			r.Violation(t, sig, "%s: success but the block files of height %d are not in the local fs", desc, h)
+			r.Violation(t, c15FilesSig(sig, inDB), "%s: success but the block files of height %d are not in the local fs", desc, h)
 		default:
 			if err := base.IsEqualBlockMap(b.Map, m); err != nil {
 				r.Violation(t, "stored-block-differs", "%s: stored block files of height %d differ from the source: %v", desc, h, err)
 			}
+		}
+
+		// ... and file by file (readers without a cache): the block map file and the file of every item of the block
+		switch missing, problem := c15FilesOf(s, fresh, h); {
+		case problem == "":
+		case missing:
+			r.Violation(t, c15FilesSig(sig, inDB), "%s: success but block %d is not stored in the local fs: %s", desc, h, problem)
+		default:
+			r.Violation(t, "stored-block-differs", "%s: success but the stored files of block %d are not those of the block: %s", desc, h, problem)
 		}
 
 		for _, op := range b.Ops {
@@ -477,6 +798,19 @@ func c15Check(t ev.TB, r *ev.Rec, s *c15Src, c c15Case, d *bbDest, out c15Outcom
 					r.Violation(t, sig, "%s: success but in-state operation %s of height %d is missing (err %v)", desc, oph, h, err)
 				}
 			}
+		}
+	}
+
+	// "so the last stored height is B": the blocks below A that the destination had stored before the import (it was
+	// prepared with 0..Prefix-1) are still stored, the import of A..B must not take their files away
+	for h := 0; h < c.Prefix && h < c.From; h++ {
+		if missing, problem := c15FilesOf(s, fresh, h); problem != "" {
+			sg := "stored-block-differs"
+			if missing {
+				sg = "missing-block-files"
+			}
+
+			r.Violation(t, sg, "%s: success but block %d, stored in the local fs before the import, is not any more: %s", desc, h, problem)
 		}
 	}
 
@@ -536,9 +870,16 @@ func TestC15(t *testing.T) {
 		"so that the block sits in a batch of exactly one importer (limit 1, one-block range, last batch with remainder 1) or first/middle/last in a larger batch, in the first/middle/last batch: " +
 		"storage-merge (every write to the destination leveldb fails, fault controller H3, while that block's merge step runs), and per (count, limit) one of storage-save (the same during that block's BlockImporter.Save), " +
 		"reimport (destination already holds blocks >= From, as the import command allows: the Center refuses block From) and gap (destination ends below From-1). " +
-		"non-trivial there: the failure was observed (a refused write or a failed merge step); distinct by (from,count,limit,lvps,fault,block,prefix)")
+		"non-trivial there: the failure was observed (a refused write or a failed merge step); distinct by (from,count,limit,lvps,fault,block,prefix). " +
+		"Plus imports over left-overs — the destination's local-fs root is not fresh: before ImportBlocks one or two heights inside the range (and/or the height right above it) already have a height directory and/or <height>.json " +
+		"(the block's own files as a completed LocalFSImporter.Save leaves them before the database merge, the files of another block as after a roll back, half of one item file plus a stray file, a stray file plus an undecodable <height>.json, an empty directory, <height>.json alone) " +
+		"and optionally a stale importer temp directory; (count, limit, position) for count 1..6 x limit 1..7 (quick: the last block and one rotating position; thorough: every position, 1..12 x 1..13) and larger shapes incl. limit 1 and remainder 1, " +
+		"so that the left-over height is saved alone in its batch or with others, in the first or a later batch; every block can be stored, success is expected and judged by the same oracle. distinct by (..., left-overs)")
 	r.Floor(120)
-	r.Assume("success = ImportBlocks returns nil; stored = block map/operations/states readable from the destination Center and block files from its local fs; merged = visible through the Center and the merge callback (Center.MergeAllPermanent as in launch) ran after block B became visible",
+	r.Assume("stored in the local fs = under the destination root the block map file of the height decodes to the source's block map and the content of the file of every item of that map has the checksum the signed block map records (read with readers that have no cache; the source's own files are checked the same way first); "+
+		"a block that is in the database after a nil return while its files are missing is signature missing-block-files; the blocks below A that the destination had stored before the import must still be stored after it (the last stored height is B means 0..B are there); "+
+		"left-over height directories / <height>.json under the import root are a state real nodes reach (LocalFSImporter.Save moves the files in place before the database merge; a crash in between, or a database roll back, leaves them) and LocalFSImporter anticipates (it replaces an existing height directory); what remains of left-overs outside A..B is not judged",
+		"success = ImportBlocks returns nil; stored = block map/operations/states readable from the destination Center and block files from its local fs; merged = visible through the Center and the merge callback (Center.MergeAllPermanent as in launch) ran after block B became visible",
 		"an error return is never judged (with a setLastVoteproofsFunc that fails on not-found, as the syncer's does, a lost last batch surfaces as an error)",
 		"the merge step of a block is the func handed to its BlockImporter (Center.MergeBlockWriteDatabase of its block write database, as launch wires it); ImportBlocks has no other way to merge a block, "+
 			"so success while the last run of that func for a height of the range returned an error is a violation; what an import that returns an error leaves behind is not judged (only counted)")
@@ -555,6 +896,7 @@ func TestC15(t *testing.T) {
 	idx := 0
 	nErr, nPlainErr, nVisibleWithoutFiles := 0, 0, 0
 	nFaultCases, nFaultObserved := map[string]int{}, map[string]int{}
+	nLeftCases, nLeftSuccess := 0, 0
 	firstErr := ""
 
 	var cases []c15Case
@@ -656,6 +998,68 @@ func TestC15(t *testing.T) {
 			addFault(cl[0], cl[1], 0, c15FaultMerge)
 			addFault(cl[0], cl[1], cl[0]/2, c15FaultMerge)
 			addFault(cl[0], cl[1], cl[0]-1, c15FaultSave)
+		}
+	}
+
+	// ---- imports over left-overs: the local-fs root of the destination is not fresh. Every block of the range can be
+	// stored, so these imports are expected to succeed like the plain ones and are judged by the same oracle.
+	addLeft := func(count, limit, pos, salt int) {
+		idx++
+		if !r.Mine(idx) {
+			return
+		}
+
+		x := count*11 + limit*5 + pos*3 + salt + seed
+		c := c15Case{Count: count, Limit: limit, Lvps: x%5 == 0, LeftTemp: x%2 == 0}
+		c.From = x % (c15MaxFrom + 1)
+		c.Prefix = c.From
+
+		c.Left = append(c.Left, c15Left{Height: c.From + pos, Kind: c15LeftKinds[x%len(c15LeftKinds)]})
+
+		switch (x / 2) % 3 {
+		case 0: // a second one inside the range
+			if p2 := (pos + 1 + x/7%count) % count; p2 != pos {
+				c.Left = append(c.Left, c15Left{Height: c.From + p2, Kind: c15LeftKinds[(x/3)%len(c15LeftKinds)]})
+			}
+		case 1: // one right above the range
+			c.Left = append(c.Left, c15Left{Height: c.To() + 1, Kind: c15LeftKinds[(x/3)%len(c15LeftKinds)]})
+		}
+
+		cases = append(cases, c)
+	}
+
+	for count := 1; count <= maxCount; count++ {
+		for limit := 1; limit <= maxLimit; limit++ {
+			if r.Thorough() {
+				for pos := 0; pos < count; pos++ {
+					addLeft(count, limit, pos, 0)
+					addLeft(count, limit, pos, 1)
+				}
+
+				continue
+			}
+
+			// quick: the last block of the range (everything before it has been saved when its batch is saved; alone in
+			// its batch when limit is 1 or the remainder is 1) and one more position
+			addLeft(count, limit, count-1, 0)
+
+			if pos := (count*3 + limit + seed) % count; pos != count-1 {
+				addLeft(count, limit, pos, 1)
+			}
+		}
+	}
+
+	for _, cl := range [][2]int{{13, 4}, {13, 12}, {12, 1}, {34, 3}, {24, 8}, {37, 6}} {
+		if !r.Thorough() && cl[0] > 13 {
+			continue
+		}
+
+		addLeft(cl[0], cl[1], cl[0]-1, 2)
+		addLeft(cl[0], cl[1], cl[0]/2, 3)
+
+		if r.Thorough() {
+			addLeft(cl[0], cl[1], 0, 4)
+			addLeft(cl[0], cl[1], cl[0]-2, 5)
 		}
 	}
 
@@ -768,6 +1172,43 @@ func TestC15(t *testing.T) {
 			classes = append(classes, "fault:none")
 		}
 
+		if len(c.Left) > 0 {
+			nLeftCases++
+			if out.Err == nil {
+				nLeftSuccess++
+			}
+
+			for i, l := range c.Left {
+				classes = append(classes, "left-over:"+l.Kind)
+
+				switch {
+				case l.Height > c.To():
+					classes = append(classes, "left-over-at:above-range")
+				case i > 0:
+					classes = append(classes, "left-over-at:second-in-range")
+				default:
+					switch n := c.BatchSizeOf(l.Height); {
+					case n == 1:
+						classes = append(classes, "left-over-batch:one-importer")
+					default:
+						classes = append(classes, "left-over-batch:more-importers")
+					}
+
+					switch {
+					case l.Height-c.From < c.Limit:
+						classes = append(classes, "left-over-in:first-batch")
+					default:
+						classes = append(classes, "left-over-in:later-batch")
+					}
+				}
+			}
+
+			classes = append(classes, fmt.Sprintf("left-over-temp:%v", c.LeftTemp))
+			nontrivial = true
+		} else {
+			classes = append(classes, "left-over:none")
+		}
+
 		switch {
 		case multiple && count > limit:
 			classes = append(classes, "shape:multiple-batches-last-full")
@@ -783,7 +1224,7 @@ func TestC15(t *testing.T) {
 			nErr++
 			classes = append(classes, "result:error")
 
-			if c.Fault == c15FaultNone {
+			if c.Fault == c15FaultNone && len(c.Left) == 0 {
 				nPlainErr++
 
 				if firstErr == "" {
@@ -794,11 +1235,12 @@ func TestC15(t *testing.T) {
 			classes = append(classes, "result:success")
 		}
 
-		r.Case(fmt.Sprintf("%d|%d|%d|%v|%s|%d|%d", c.From, c.Count, c.Limit, c.Lvps, c.Fault, c.FaultAt, c.Prefix), nontrivial, classes...)
+		r.Case(fmt.Sprintf("%d|%d|%d|%v|%s|%d|%d|%s", c.From, c.Count, c.Limit, c.Lvps, c.Fault, c.FaultAt, c.Prefix, c15LeftString(c.Left, c.LeftTemp)), nontrivial, classes...)
 
-		if nontrivial && (multiple || (c.Fault != c15FaultNone && c.FaultBatchSize() == 1)) && r.WantSample() {
+		if nontrivial && (multiple || (c.Fault != c15FaultNone && c.FaultBatchSize() == 1) || len(c.Left) > 0) && r.WantSample() {
 			r.Sample(map[string]any{"from": c.From, "to": c.To(), "count": c.Count, "batch_limit": c.Limit, "set_last_voteproofs": c.Lvps,
 				"fault": c.Fault, "fault_block": c.FaultAt, "fault_batch_importers": c.FaultBatchSize(), "destination_held_before": c.Prefix,
+				"left_overs_before_import": c15LeftString(c.Left, c.LeftTemp),
 				"result_error": bbErrStr(out.Err), "merge_callback_calls": out.MergeCalls, "writes_refused": out.Fired})
 		}
 	}
@@ -812,6 +1254,14 @@ func TestC15(t *testing.T) {
 
 	if nPlainErr*2 > nPlain && !r.Failed() {
 		t.Fatalf("more than half of the fault-free imports of a valid chain failed (%d of %d), cannot decide; first: %s", nPlainErr, nPlain, firstErr)
+	}
+
+	r.Extra("left_over_imports", nLeftCases)
+	r.Extra("left_over_imports_returning_success", nLeftSuccess)
+
+	// every block of a left-over import can be stored; if none of them reports success the oracle never ran on the class
+	if nLeftCases > 0 && nLeftSuccess == 0 && !r.Failed() {
+		t.Fatalf("none of the %d imports over left-overs returned success, cannot decide", nLeftCases)
 	}
 
 	// the fault classes must reach the code: a run in which no injected storage fault fired / no merge was refused is vacuous
